@@ -815,7 +815,7 @@ func ruleD3(r *core.Run) {
 		for _, e := range r.Eff.Own[f] {
 			if strings.HasPrefix(e.Kind, "store.") && (strings.Contains(strings.ToLower(e.KeyField), "mem") || strings.Contains(strings.ToLower(e.KeyField), "transient")) {
 				memUse++
-				r.Violate("D3-mem", core.Key("D3-mem", r.P.Name(f), e.KeyField), r.P.Pos(e.Instr.Pos()), "module code opens the memory/transient store "+e.KeyField+": its content is not part of the committed state")
+				r.Violate("D3-mem", core.Key("D3-mem", r.KeyName(f), e.KeyField), r.P.Pos(e.Instr.Pos()), "module code opens the memory/transient store "+e.KeyField+": its content is not part of the committed state")
 			}
 		}
 	}
@@ -1011,7 +1011,7 @@ func ruleD1Dep(r *core.Run) {
 					continue
 				}
 				bad++
-				r.Violate("D1-dep", core.Key("D1-dep", r.P.Name(f), "DidDocumentMetadata."+fld), r.P.Pos(st.Pos()), fmt.Sprintf("%s sets DidDocumentMetadata.%s on a resolved DID document: sao-did's VerifyJWS compares that field with time.Now() (the executing node's wall clock), so whether a signature is accepted then differs between a live validator and a node replaying the block later", r.P.Name(f), fld))
+				r.Violate("D1-dep", core.Key("D1-dep", r.KeyName(f), "DidDocumentMetadata."+fld), r.P.Pos(st.Pos()), fmt.Sprintf("%s sets DidDocumentMetadata.%s on a resolved DID document: sao-did's VerifyJWS compares that field with time.Now() (the executing node's wall clock), so whether a signature is accepted then differs between a live validator and a node replaying the block later", r.P.Name(f), fld))
 			}
 		}
 	}
